@@ -235,7 +235,7 @@ func genVolume(t *rapid.T) absVolume {
 		v.Source = rapid.SampledFrom([]string{"dbdata", "my_vol", "vol-2", "cache.v1"}).Draw(t, "named")
 		v.Declare = true
 	case 2:
-		v.Source = rapid.SampledFrom([]string{"./rel", "../up/dir", "/abs/path", "~/home/dir", "./a b", ".", "/"}).Draw(t, "path")
+		v.Source = rapid.SampledFrom([]string{"./rel", "../up/dir", "/abs/path", "~/home/dir", "./a b", ".", "/", ".cache", ".docker/nginx.conf", "..data/x", "~", ".."}).Draw(t, "path")
 		v.IsPath = true
 	}
 	if v.Source != "" || rapid.IntRange(0, 3).Draw(t, "anonmode") == 0 {
